@@ -424,6 +424,13 @@ func vfC08Run(e *vfEnv, r *vfResult, idx int, plan vfC08Plan) { //nolint:cyclop,
 			if B.conn != nil && !readerParked {
 				_, _ = B.conn.Write([]byte("\x90stale application payload"))
 				s.deliverAll(true, 50)
+				for _, dl := range s.sw.deliveredCopy() {
+					if dl.To == "A" && strings.Contains(string(dl.Dgram.Data), "stale application payload") {
+						r.count("c08_unread_payload_queued_before_close", 1)
+
+						break
+					}
+				}
 				_, _ = A.conn.Write([]byte("\x90hello again"))
 			}
 			closeNow()
@@ -569,7 +576,7 @@ func vfC08Run(e *vfEnv, r *vfResult, idx int, plan vfC08Plan) { //nolint:cyclop,
 	}
 	if A.conn != nil {
 		calls = append(calls,
-			call{"Conn.Read", func() error { _, err := A.conn.Read(make([]byte, 10)); return err }, true},
+			call{"Conn.Read", func() error { _, err := A.conn.Read(make([]byte, 2000)); return err }, true},
 			call{"Conn.Write", func() error { _, err := A.conn.Write([]byte("\x90late")); return err }, true},
 			call{"Conn.WriteToPair", func() error { _, err := A.conn.WriteToPair(1, []byte("\x90late")); return err }, true},
 			call{"Conn.GetCandidatePairsInfo", func() error {
@@ -680,9 +687,13 @@ func vfC08LateCandidate(e *vfEnv, r *vfResult, idx int) {
 
 		return
 	}
+	// the agent stays in Checking (nothing is delivered): a check round pings every pair, also those of a candidate added late
 	pending, _ := s.signalList(t)
-	s.fairSuffix(&pending, 8, func() bool { ok, _ := s.bothConnectedMirror(); return ok })
-	if ok, _ := s.bothConnectedMirror(); !ok || s.broken != "" {
+	for _, p := range pending {
+		p.to.addRemote(p.cand)
+	}
+	s.dropAll()
+	if s.broken != "" {
 		r.inconclusive(1)
 
 		return
